@@ -16,9 +16,17 @@ DH_TARGET = CACHE + '/target-derive' + cp.TAG
 DH_CARGO = open(DH + '/Cargo.toml').read()
 
 
-def model_verdicts(driver, entries):
+def without_schema_feature(item_sexp):
+    """The item as borsh-derive built WITHOUT its `schema` feature reads it: `schema` is not in the field key map
+    (attributes/field/mod.rs: `#[cfg(feature = "schema")] m.insert(SCHEMA, f_schema)`), so a `schema(..)` entry is
+    one more unknown key.  (The Rust source keeps the `schema(..)` text; only the model's term changes.)"""
+    return re.sub(r'\(schema [01] (?:none|\(wf [01] [01]\))\)', '(other schema)', item_sexp)
+
+
+def model_verdicts(driver, entries, fix=None):
     """entries: [(key, kind, item)] -> {key: dict(verdict, viol, flags, derive, doc)}"""
-    lines = ['\t'.join([str(k), 'derive', '-', '-', kind, I.item_sexp(it)]) for k, kind, it in entries]
+    fix = fix or (lambda x: x)
+    lines = ['\t'.join([str(k), 'derive', '-', '-', kind, fix(I.item_sexp(it))]) for k, kind, it in entries]
     res = run_cases(driver, lines)
     out = {}
     for k, kind, it in entries:
@@ -66,16 +74,46 @@ def build_positive(items, timeout=1500):
     return _build_positive_in(DH, items, failures, timeout)
 
 
-def _build_positive_in(DH, items, failures, timeout):
+def build_variant(items, variant, timeout=1500, derives=None):
+    """The positive crate in another dependency configuration (own directory and package name, same target directory):
+      'noschema': `borsh = { features = ["derive", "rc"] }` -- borsh-derive without its `schema` feature;
+      'rex':      NO dependency called borsh: the crate depends on `reexporter` (cargoprobe.reexporter_crate: `pub use borsh;`)
+                  only; every `borsh::` path of the harness sources becomes `reexporter::borsh::`, and the items have to
+                  carry `#[borsh(crate = "reexporter::borsh")]` (the caller's business) for the derives to work at all.
+    Returns (exe or None, compile failures, log)."""
+    d = CACHE + '/derive_harness_%s%s' % (variant, cp.TAG)
+    os.makedirs(d + '/src/shared', exist_ok=True)
+    if variant == 'rex':
+        fix = lambda t: re.sub(r'\bborsh::', 'reexporter::borsh::', t)
+    else:       # the two helper functions for `schema(with_funcs(..))` name types of the (absent) schema module
+        fix = lambda t: '\n'.join(l for l in t.split('\n') if 'borsh::schema::' not in l)
+    main = open(DH + '/src/main.rs').read().replace('../../harness/src/', 'shared/')
+    cp.write_if_changed(d + '/src/main.rs', fix(main))
+    for f in ('errs', 'model', 'ops', 'val'):
+        cp.write_if_changed(d + '/src/shared/%s.rs' % f, fix(open(HARNESS + '/src/%s.rs' % f).read()))
+    cargo = DH_CARGO.replace('name = "derive_harness"', 'name = "derive_harness_%s"' % variant)
+    dep = [l for l in cargo.split('\n') if l.startswith('borsh = ')][0]
+    if variant == 'noschema':
+        cargo = cargo.replace(dep, 'borsh = { path = "%s/borsh", features = ["derive", "rc"] }' % cp.REPO)
+    else:
+        cargo = cargo.replace(dep, cp.deps_reexport())
+    cp.write_if_changed(d + '/Cargo.toml', cargo)
+    if not os.path.exists(d + '/Cargo.lock'):
+        sh(['cp', cp.REPO + '/Cargo.lock', d + '/Cargo.lock'])
+    return _build_positive_in(d, items, [], timeout, exe='derive_harness_' + variant, fix=fix, derives=derives)
+
+
+def _build_positive_in(DH, items, failures, timeout, exe='derive_harness', fix=None, derives=None):
     live = list(items)
+    fix = fix or (lambda t: t)
     for attempt in range(2):
-        src = I.emit_items_rs(live)
+        src = fix(I.emit_items_rs(live, derives) if derives else I.emit_items_rs(live))
         cp.write_if_changed(DH + '/src/items.rs', src)
-        cp.write_if_changed(DH + '/src/withfns.rs', I.WITHFNS_RS)
+        cp.write_if_changed(DH + '/src/withfns.rs', fix(I.WITHFNS_RS))
         cmd = ['timeout', str(timeout), 'cargo', 'build', '--offline', '--message-format=json', '--target-dir', DH_TARGET]
         p = subprocess.run(cmd, cwd=DH, env=ENV, stdout=subprocess.PIPE, stderr=subprocess.PIPE, text=True, timeout=timeout + 60)
         if p.returncode == 0:
-            return DH_TARGET + '/debug/derive_harness', failures, ''
+            return DH_TARGET + '/debug/' + exe, failures, ''
         import json
         errs = []
         for line in p.stdout.split('\n'):
@@ -102,7 +140,7 @@ def _build_positive_in(DH, items, failures, timeout):
             for ln in lines_:
                 for a, b, name in ranges:
                     if a <= ln <= b:
-                        bad.setdefault(name, []).append(e.get('message', '')[:200])
+                        bad.setdefault(name, []).append((e.get('message', '') + ' ' + ' '.join(c.get('message', '') for c in e.get('children', [])))[:300])
         if not bad:
             return None, failures, (p.stderr[-1500:] + ' '.join(e.get('message', '') for e in errs[:3]))
         for name, msgs in bad.items():
